@@ -69,7 +69,7 @@ def _close(interp, args, kwargs, node):
     return VBool(interp.veq(a, b, node))
 
 
-def _lambda_quant(interp, args, node, is_forall):
+def _lambda_quant(interp, args, node, is_forall, kwargs=None):
     """forall(T1, T2, ..., lambda x1, x2, ...: body)"""
     lam = args[-1]
     tys = args[:-1]
@@ -87,7 +87,18 @@ def _lambda_quant(interp, args, node, is_forall):
         bvs.append(c)
         vals.append(t.wrap(c))
     body = B(interp, interp.call(lam, vals, {}, node), node)
-    return VBool(z3.ForAll(bvs, body) if is_forall else z3.Exists(bvs, body))
+    if is_forall:
+        return VBool(z3.ForAll(bvs, body))
+    ex = z3.Exists(bvs, body)
+    hints = kwargs.get("hints") if kwargs else None
+    if hints is not None:
+        # exists x. P(x) is equivalent to P(h1) \/ ... \/ exists x. P(x): explicit instances help the solver
+        insts = []
+        for h in interp.iter_concrete(hints):
+            hv = list(h.items) if isinstance(h, VTuple) else [h]
+            insts.append(B(interp, interp.call(lam, hv, {}, node), node))
+        return VBool(z3.Or(*(insts + [ex])))
+    return VBool(ex)
 
 
 @spec("forall")
@@ -97,7 +108,7 @@ def _forall(interp, args, kwargs, node):
 
 @spec("exists")
 def _exists(interp, args, kwargs, node):
-    return _lambda_quant(interp, args, node, False)
+    return _lambda_quant(interp, args, node, False, kwargs)
 
 
 for _n, _t in (("Int", T.Int), ("Str", T.Str), ("Real", T.Real), ("Bool", T.Bool), ("Nat", T.Nat)):
@@ -173,6 +184,12 @@ def _exists_in(interp, args, kwargs, node):
 def _no_duplicates(interp, args, kwargs, node):
     """Pairwise distinctness of the emitted elements of a bag (two alpha-renamed copies per pair of
     sites; same site: equal elements force equal generator variables)."""
+    if (isinstance(args[0], VSet) or getattr(args[0], "setlike", False)):
+        # a set (or a list made from one) holds each distinct element once: duplicates by key exist
+        # iff two different elements share a key
+        if len(args) == 1:
+            return VBool(True)
+        return _functional_on(interp, [args[0], args[1]], {}, node)
     bag = bag_of(interp, args[0])
     key = args[1] if len(args) > 1 else None
     parts = []
@@ -447,7 +464,7 @@ def loop_inv(interp, target, it, body, env, node, label, rule):
         ghost0.update(pre_snap)
         # 1. initiation
         for i, t in _inv_terms(interp, rule, env, ghost0):
-            ctx.oblige(f"{short}/inv[{label}.{i}]/init", t, kind="inv-init", line=node.lineno)
+            ctx.oblige(f"{short}/inv[{label}.{i}]/init", t, kind="inv-init", line=node.lineno, assume_after=False)
         # 2. fork: arbitrary iteration (preservation) vs exit
         which = ctx.choose([z3.BoolVal(True), z3.BoolVal(True)], f"inv@{label}")
         _havoc(interp, rule, env, label)
@@ -468,7 +485,7 @@ def loop_inv(interp, target, it, body, env, node, label, rule):
             g2 = {"_i": VInt(k + 1), "_n": VInt(n)}
             g2.update(pre_snap)
             for i, t in _inv_terms(interp, rule, env, g2):
-                ctx.oblige(f"{short}/inv[{label}.{i}]/preserve", t, kind="inv-preserve", line=node.lineno)
+                ctx.oblige(f"{short}/inv[{label}.{i}]/preserve", t, kind="inv-preserve", line=node.lineno, assume_after=False)
             raise PathAbort()
         g = {"_i": VInt(n), "_n": VInt(n)}
         g.update(pre_snap)
@@ -489,7 +506,7 @@ def loop_inv(interp, target, it, body, env, node, label, rule):
     g0 = {"_done": empty}
     g0.update(pre_snap)
     for i, t in _inv_terms(interp, rule, env, g0):
-        ctx.oblige(f"{short}/inv[{label}.{i}]/init", t, kind="inv-init", line=node.lineno)
+        ctx.oblige(f"{short}/inv[{label}.{i}]/init", t, kind="inv-init", line=node.lineno, assume_after=False)
     which = ctx.choose([z3.BoolVal(True), z3.BoolVal(True)], f"inv@{label}")
     _havoc(interp, rule, env, label)
     if which == 0:
@@ -515,7 +532,7 @@ def loop_inv(interp, target, it, body, env, node, label, rule):
         g2 = {"_done": done2}
         g2.update(pre_snap)
         for i, t in _inv_terms(interp, rule, env, g2):
-            ctx.oblige(f"{short}/inv[{label}.{i}]/preserve", t, kind="inv-preserve", line=node.lineno)
+            ctx.oblige(f"{short}/inv[{label}.{i}]/preserve", t, kind="inv-preserve", line=node.lineno, assume_after=False)
         raise PathAbort()
     full = VSet(pred=mem)
     full.elem_kind = ek
@@ -531,7 +548,7 @@ def while_inv(interp, node, env, label, rule):
     short = interp.current_qualname.replace("pyrepseq.", "")
     pre_snap = {}
     for i, t in _inv_terms(interp, rule, env, pre_snap):
-        ctx.oblige(f"{short}/inv[{label}.{i}]/init", t, kind="inv-init", line=node.lineno)
+        ctx.oblige(f"{short}/inv[{label}.{i}]/init", t, kind="inv-init", line=node.lineno, assume_after=False)
     which = ctx.choose([z3.BoolVal(True), z3.BoolVal(True)], f"inv@{label}")
     _havoc(interp, rule, env, label)
     for i, t in _inv_terms(interp, rule, env, pre_snap):
@@ -552,7 +569,7 @@ def while_inv(interp, node, env, label, rule):
         except BreakSig:
             raise Unsupported("break in invariant while")
         for i, t in _inv_terms(interp, rule, env, pre_snap):
-            ctx.oblige(f"{short}/inv[{label}.{i}]/preserve", t, kind="inv-preserve", line=node.lineno)
+            ctx.oblige(f"{short}/inv[{label}.{i}]/preserve", t, kind="inv-preserve", line=node.lineno, assume_after=False)
         if vx is not None:
             var1 = to_int(c.eval_spec(interp, vx, env))
             ctx.oblige(f"{short}/variant[{label}]", z3.And(var0 >= 0, var1 < var0), kind="variant", line=node.lineno)
@@ -691,6 +708,30 @@ def _same_elements(interp, args, kwargs, node):
 
 # ----------------------------------------------------------------------------- membership with witness hints
 
+def open_exists(formula, hint_tuples, depth=0):
+    """Rewrite every `exists xs. B` whose variable sorts match a hint tuple into `B[hint/xs] \/ exists xs. B`
+    (an equivalent formula: the explicit instance only helps the solver)."""
+    if depth > 40 or not hint_tuples:
+        return formula
+    if z3.is_quantifier(formula):
+        if formula.is_exists():
+            n = formula.num_vars()
+            sorts = [formula.var_sort(i) for i in range(n)]
+            insts = []
+            for ht in hint_tuples:
+                if len(ht) == n and all(h.sort() == so for h, so in zip(ht, sorts)):
+                    insts.append(z3.substitute_vars(formula.body(), *reversed(ht)))
+            if insts:
+                return z3.Or(*(insts + [formula]))
+        return formula
+    if z3.is_and(formula) or z3.is_or(formula):
+        ch = [open_exists(c, hint_tuples, depth + 1) for c in formula.children()]
+        return z3.And(*ch) if z3.is_and(formula) else z3.Or(*ch)
+    if z3.is_not(formula) and z3.is_not(formula.children()[0]):
+        return open_exists(formula.children()[0].children()[0], hint_tuples, depth + 1)
+    return formula
+
+
 @spec("member")
 def _member(interp, args, kwargs, node):
     """member(collection, y, h1, h2, ...): y is produced by some emitting site of the collection.
@@ -718,6 +759,12 @@ def _member(interp, args, kwargs, node):
         s2 = s.rename(interp.ctx) if s.hvars else s
         sub = [(bv2, ht) for (bv2, (_, ht)) in zip(s2.bvars, sub)]
         cond = z3.substitute(s2.cond, *sub)
+        if kwargs and "inner" in kwargs:
+            tuples = []
+            for h in interp.iter_concrete(kwargs["inner"]):
+                hv = list(h.items) if isinstance(h, VTuple) else [h]
+                tuples.append([x.term for x in hv])
+            cond = open_exists(cond, tuples)
         eq = interp.veq(vsubst(s2.elem, sub), y)
         if s2.hvars:
             eq = z3.ForAll(s2.hvars, z3.Implies(z3.substitute(s2.cond_h, *sub), eq))
@@ -804,3 +851,122 @@ def _distinct_letters(interp, args, kwargs, node):
     i, j = z3.Int("i!dl"), z3.Int("j!dl")
     return VBool(z3.ForAll([i, j], z3.Implies(z3.And(0 <= i, i < j, j < z3.Length(a)),
                                               z3.SubString(a, i, 1) != z3.SubString(a, j, 1))))
+
+
+@spec("same_object")
+def _same_object(interp, args, kwargs, node):
+    return VBool(args[0] is args[1])
+
+
+# ----------------------------------------------------------------------------- search results
+
+@spec("search_output")
+def _search_output(interp, args, kwargs, node):
+    """abstract value of _make_output(triplets, output_type, seqs, seqs2): the triplet collection itself for
+    'triplets', otherwise a matrix object remembering which triplets it encodes, its kind and shape"""
+    trip, ot, seqs, seqs2 = args
+    kind = concrete_str(ot)
+    if kind == "triplets":
+        if isinstance(trip, VList) and trip.kind == "list":
+            return trip
+        r = VList(trip.content if trip.content is not None else None, "list")
+        if trip.content is None:
+            raise Unsupported("search_output of a predicate set")
+        r.setlike = isinstance(trip, VSet) or getattr(trip, "setlike", False)
+        return r
+    o = VObj("search_matrix")
+    o.triplets = trip
+    o.kind = ot
+    n1 = interp.seq_len(seqs)
+    n2 = n1 if isinstance(seqs2, VNone) else interp.seq_len(seqs2)
+    o.shape = (n1, n2)
+    return o
+
+
+@spec("triplets_of")
+def _triplets_of(interp, args, kwargs, node):
+    r = args[0]
+    if isinstance(r, VObj) and r.tag == "search_matrix":
+        return r.triplets
+    return r
+
+
+@spec("output_kind")
+def _output_kind(interp, args, kwargs, node):
+    r = args[0]
+    if isinstance(r, VObj) and r.tag == "search_matrix":
+        return r.kind
+    return VStr("triplets")
+
+
+@spec("output_shape")
+def _output_shape(interp, args, kwargs, node):
+    r = args[0]
+    if isinstance(r, VObj) and r.tag == "search_matrix":
+        return VTuple([VInt(r.shape[0]), VInt(r.shape[1])])
+    return NONE
+
+
+@spec("functional_on")
+def _functional_on(interp, args, kwargs, node):
+    """functional_on(collection, key): two members with equal key are equal (so a set / de-duplicated list
+    holds at most one member per key)"""
+    bag = bag_of(interp, args[0])
+    key = args[1]
+    parts = []
+    for i, s in enumerate(bag.sites):
+        for j, t in enumerate(bag.sites):
+            if j < i:
+                continue
+            a, b = s.rename(interp.ctx), t.rename(interp.ctx)
+            ka = interp.call(key, [a.elem], {}, node)
+            kb = interp.call(key, [b.elem], {}, node)
+            body = z3.Implies(z3.And(a.full_cond(), b.full_cond(), interp.veq(ka, kb, node)), interp.veq(a.elem, b.elem, node))
+            vs = a.all_vars() + b.all_vars()
+            parts.append(z3.ForAll(vs, body) if vs else body)
+    return VBool(z3.And(*parts) if parts else z3.BoolVal(True))
+
+
+@spec("is_setlike")
+def _is_setlike(interp, args, kwargs, node):
+    v = args[0]
+    return VBool(isinstance(v, VSet) or getattr(v, "setlike", False))
+
+
+@spec("local")
+def _local(interp, args, kwargs, node):
+    """value of a local variable of the verified function at its exit (only meaningful inside witness hints)"""
+    env = getattr(interp, "exit_env", None)
+    if env is None:
+        raise Unsupported("local(): no function environment")
+    return interp.lookup(concrete_str(args[0]), env, node)
+
+
+@spec("bag_equal")
+def _bag_equal(interp, args, kwargs, node):
+    a, b = args
+    if a is b or (getattr(a, "content", 0) is getattr(b, "content", 1)):
+        return VBool(True)
+    ba, bb = bag_of(interp, a), bag_of(interp, b)
+    parts = []
+    for src, dst in ((ba, bb), (bb, ba)):
+        for s in src.sites:
+            s2 = s.rename(interp.ctx)
+            body = z3.Implies(s2.full_cond(), bag_contains(interp, dst, s2.elem))
+            parts.append(z3.ForAll(s2.all_vars(), body) if s2.all_vars() else body)
+    return VBool(z3.And(*parts) if parts else z3.BoolVal(True))
+
+
+@spec("with_witness")
+def _with_witness(interp, args, kwargs, node):
+    """with_witness(t1, ..., tn, phi) == phi; the terms t_i are named by fresh constants (w_i == t_i => phi),
+    which puts them into the solver's term universe so that quantified hypotheses get instantiated at them."""
+    *terms, phi = args
+    hyps = []
+    for t in terms:
+        tt = getattr(t, "term", None)
+        if tt is None:
+            continue
+        w = interp.ctx.fresh("w", tt.sort())
+        hyps.append(w == tt)
+    return VBool(z3.Implies(z3.And(*hyps), B(interp, phi)) if hyps else B(interp, phi))
